@@ -249,13 +249,25 @@ def analyze(ctx, want):
                "on a failed attempt cursor.next() is called %d time(s) on %s" % (len(nexts), [e[2] for e in nexts]), nm.loc())
             if not nexts:
                 continue
-            # which way did next() go?
+            # which way did next() go?  The value the call stored tells the branch.
             nx = [e for e in p.events if e[0] == "call" and re.search(r"Iterator>::next$", e[2])]
-            item_some = any(c[0][0] == "sym" or True for c in ()) or None
-            went_some = any(isinstance(e[4], tuple) for e in ()) or None
-            # the engine forked: the dest value of the call tells the branch
-            # find the value bound: look at conds/locals is fragile; use the path end instead
-            if p.end[0] == "cut":
+            went_some = None
+            for e_ in nx:
+                for w_ in p.events:
+                    if w_[0] == "write" and w_[1] == e_[1] and w_[4][0] == "adt" and w_[4][2] in ("Some", "None") and str(w_[4][1]).endswith("Option"):
+                        went_some = w_[4][2] == "Some"
+            end_kind = p.end[0]
+            cont_ret = None
+            if went_some is False and p.end[0] == "cut":
+                # exhaustion noted in a flag that ends the loop at its next test (`while !exhausted`): follow the back edge
+                # once — the continuation must leave the loop and return without another attempt
+                q0 = S.Path()
+                q0.locals, q0.heap, q0.assume, q0.conds = dict(p.locals), dict(p.heap), dict(p.assume), list(p.conds)
+                conts = ex.run(p.end[2], q0) if len(p.end) > 2 else []
+                if conts and all(q.end[0] == "return" and not q.calls(r"ScannerImpl::find_from$") and not [e_ for e_ in q.events if e_[0] == "cursor-next"] for q in conts):
+                    end_kind = "return"
+                    cont_ret = conts[0].end[1]
+            if went_some is not False and p.end[0] == "cut":
                 outcomes["skip"] += 1
                 ob("C01.d", "next_match:skip-then-retry", True, "Some(char) -> back to the attempt", nm.loc())
                 ok_rec = len(rec) == 1
@@ -272,9 +284,10 @@ def analyze(ctx, want):
                     sample("C09.d", {"skip_branch": "record_line_offset(%s, %s)" % (S.vstr(i_arg), S.vstr(c_arg))})
                 else:
                     ob("C09.c", "next_match:consume-implies-record", False, detail, nm.loc())
-            elif p.end[0] == "return":
+            elif end_kind == "return":
                 outcomes["exhausted"] += 1
-                ob("C01.d", "next_match:exhausted-returns-None", variant_of(ex, p, p.end[1]) == "None", "returns %s" % S.vstr(p.end[1]), nm.loc())
+                retv = cont_ret if cont_ret is not None else p.end[1]
+                ob("C01.d", "next_match:exhausted-returns-None", variant_of(ex, p, retv) == "None" or (retv[0] == "adt" and retv[2] == "None"), "returns %s" % S.vstr(retv), nm.loc())
                 if len(rec) == 1:
                     i_arg = rec[0][3][1]
                     ok = S.vstr(i_arg) == "str::len(&*self.input)"
